@@ -5,9 +5,17 @@
 //! ops (all numbers decimal):
 //!   note <start-kind> <size-kind>            generator bookkeeping (ignored by model and judge)
 //!   file fix <path under fixtures/>          | file syn <machine> <vbase> <textoff> <load|none|short:N|long>
-//!   text <hex> / data <gap> <hex> / bss <n> / fsym <relvalue> <size>      (synthetic files only)
-//!   arch <x86|x86_64|arm|arm64|none>         architecture of the object, determined by the harness
+//!   | file fixp <path> <offset> <u32>          the fixture with one little-endian u32 patched in memory (Mach-O cpusubtype / cputype)
+//!   | file fat <path> <member index>           one member of a fat Mach-O fixture (the code is served the whole archive)
+//!   | file jit <elf machine>                   a generated JITDUMP file
+//!   text <hex> / data <gap> <hex> / bss <n> / fsym <relvalue> <size>      (synthetic ELF files only)
+//!   rec <namelen> <hex code> / skip <kind> <len>                          (JITDUMP only: code-load records / other records)
+//!   member <start> <size>                    (fat only, informational) file range of the member
+//!   arch <string|none>                       what `BinaryImage::arch()` returns for the loaded binary (observed)
+//!   truearch <x86|x86_64|arm|arm64|none>     architecture per the object's own header (harness's parse; JITDUMP: the generator's)
+//!   pre <start> <size> <cont>                requests run before `req` on the same SymbolManager (output discarded)
 //!   req <start> <size> <cont>                the request
+//!   kind jit / jent <rel> <codeoff> <codelen> / flen <n>     (JITDUMP only) the index as the writer laid it out
 //!   sym none | sym <addr> <size|none>        symbol found by a direct lookup of <start> (only when cont=1)
 //!   base <n>                                 relative-address base of the object
 //!   sec <addr> <size> <fileoff> <datalen|e>  every section, in object order
@@ -19,7 +27,7 @@
 //!   ref <tokens>                             per slice offset: fingerprint of the decoded text, or `-`
 //! out:
 //!   resp <startAddress> <size> <arch>        then `offs <o>[!] …`, `bad <hex> …`, `fp <h> …`
-//!   | err:<notfound|range|parse|arch|load|other> | panic
+//!   | err:<notfound|range|parse|arch|io|load|other> | panic
 use std::collections::HashMap;
 use std::panic::{catch_unwind, AssertUnwindSafe};
 use std::sync::{Arc, OnceLock};
@@ -31,7 +39,7 @@ use samply_symbols::{
 };
 use verif_harness::common::*;
 use verif_harness::gen::elf::*;
-use yaxpeax_arch::{Arch, DecodeError, Decoder, Reader, U8Reader};
+use yaxpeax_arch::{Arch, DecodeError, Decoder, LengthedInstruction, Reader, U8Reader};
 
 pub struct C20;
 
@@ -117,14 +125,32 @@ struct Reg {
     exec: bool,
 }
 
+#[derive(Clone, Debug)]
+struct JitRec {
+    rel: u32,
+    codeoff: u64,
+    code: Vec<u8>,
+}
+
 #[derive(Clone)]
 struct Bin {
     /// the `file …` op lines that identify / reconstruct the binary
     file_ops: Vec<String>,
     name: String,
+    /// what the helper serves to samply (the whole file)
+    serve: Arc<[u8]>,
+    /// the object's own bytes: `serve`, or the member's range of a fat archive (file offsets are relative to it)
     bytes: Arc<[u8]>,
+    member: Option<(u64, u64)>,
     debug_id: String,
+    /// architecture per the object's header (specification side, also selects the oracle's decoder)
     arch: Option<&'static str>,
+    /// `BinaryImage::arch()` of the binary as loaded by the code under test
+    code_arch: Option<String>,
+    /// synthetic ELF: the SVMA ranges whose bytes the generator chose (ground truth for the window)
+    truth: Vec<(u64, Vec<u8>)>,
+    /// JITDUMP: the code-load records as written
+    jit: Option<Vec<JitRec>>,
     base: u64,
     secs: Vec<Reg>,
     segs: Vec<Reg>,
@@ -142,7 +168,11 @@ fn arch_of(a: object::Architecture) -> Option<&'static str> {
     }
 }
 
-fn parse_bin(file_ops: Vec<String>, name: &str, bytes: Arc<[u8]>) -> Option<Bin> {
+fn parse_bin(file_ops: Vec<String>, name: &str, serve: Arc<[u8]>, member: Option<(u64, u64)>) -> Option<Bin> {
+    let bytes: Arc<[u8]> = match member {
+        Some((a, n)) => Arc::from(serve.get(a as usize..(a + n) as usize)?),
+        None => serve.clone(),
+    };
     let obj = object::File::parse(&*bytes).ok()?;
     let debug_id = samply_symbols::debug_id_for_object(&obj)?.breakpad().to_string();
     let base = samply_symbols::relative_address_base(&obj);
@@ -164,7 +194,19 @@ fn parse_bin(file_ops: Vec<String>, name: &str, bytes: Arc<[u8]>) -> Option<Bin>
     }
     let arch = arch_of(obj.architecture());
     drop(obj);
-    Some(Bin { file_ops, name: name.to_string(), bytes, debug_id, arch, base, secs, segs, entries: Vec::new() })
+    let mut bin = Bin { file_ops, name: name.to_string(), serve, bytes, member, debug_id, arch, code_arch: None, truth: Vec::new(), jit: None, base, secs, segs, entries: Vec::new() };
+    bin.code_arch = observe_arch(&bin);
+    Some(bin)
+}
+
+/// `BinaryImage::arch()` of the binary as the code under test loads it (same `load_binary` call as `query_api`)
+fn observe_arch(bin: &Bin) -> Option<String> {
+    let m = manager(bin);
+    let r = catch_unwind(AssertUnwindSafe(|| futures::executor::block_on(m.load_binary(&library_info(bin)))));
+    match r {
+        Ok(Ok(img)) => img.arch().map(|s| s.to_string()),
+        _ => None,
+    }
 }
 
 fn library_info(bin: &Bin) -> LibraryInfo {
@@ -177,7 +219,7 @@ fn library_info(bin: &Bin) -> LibraryInfo {
 }
 
 fn manager(bin: &Bin) -> SymbolManager<Helper> {
-    SymbolManager::with_helper(Helper { name: bin.name.clone(), bytes: bin.bytes.clone() })
+    SymbolManager::with_helper(Helper { name: bin.name.clone(), bytes: bin.serve.clone() })
 }
 
 /// direct symbol lookup (what `get_function_end_address` consults): address and size of the symbol at `addr`
@@ -202,6 +244,20 @@ const FIXTURES: &[&str] = &[
     "other/simple-example/out/mac-dsym/main",
 ];
 
+/// Variants of fixtures: Mach-O headers with another `cpusubtype` (offset 8) / `cputype` (offset 4), so that
+/// `BinaryImage::arch()` yields the aliases `arm64e`, `x86_64h` and the names the API does not know
+/// (`arm64v8`, `i386`), and the two members of the fat archive `macos-ci/firefox`.
+const VARIANTS: &[&str] = &[
+    "file fixp other/simple-example/out/mac-dsym/main 8 2",          // CPU_SUBTYPE_ARM64E
+    "file fixp other/simple-example/out/mac-dsym/main 8 2147483650", // arm64e with the ptrauth ABI bits (0x80000002)
+    "file fixp other/simple-example/out/mac-dsym/main 8 1",          // CPU_SUBTYPE_ARM64_V8
+    "file fixp macos-local/firefox 8 8",                             // CPU_SUBTYPE_X86_64_H
+    "file fixp macos-ci/libsoftokn3.dylib 8 8",
+    "file fixp macos-local/firefox 4 7",                             // CPU_TYPE_X86 ("i386")
+    "file fat macos-ci/firefox 0",
+    "file fat macos-ci/firefox 1",
+];
+
 fn repo_dir() -> std::path::PathBuf {
     if let Ok(r) = std::env::var("VERIF_REPO") {
         return r.into();
@@ -212,34 +268,89 @@ fn repo_dir() -> std::path::PathBuf {
     std::path::Path::new(env!("CARGO_MANIFEST_DIR")).join("../repo-link")
 }
 
+/// the harness's own reading of a fat Mach-O header (big-endian `fat_header` + `fat_arch[]`): (offset, size) per member
+fn fat_members(data: &[u8]) -> Vec<(u64, u64)> {
+    let be = |o: usize| data.get(o..o + 4).map(|b| u32::from_be_bytes([b[0], b[1], b[2], b[3]]));
+    let mut v = Vec::new();
+    if be(0) != Some(0xcafe_babe) {
+        return v;
+    }
+    let n = be(4).unwrap_or(0).min(16) as usize;
+    for k in 0..n {
+        let o = 8 + 20 * k;
+        if let (Some(off), Some(size)) = (be(o + 8), be(o + 12)) {
+            v.push((off as u64, size as u64));
+        }
+    }
+    v
+}
+
+/// loads the binary a `file fix|fixp|fat …` line describes
+fn load_fixture(op: &str, with_entries: bool) -> Option<Bin> {
+    let w: Vec<&str> = op.split_whitespace().collect();
+    let (rel, patch, member_index): (&str, Option<(usize, u32)>, Option<usize>) = match w.as_slice() {
+        ["file", "fix", rel] => (rel, None, None),
+        ["file", "fixp", rel, off, val] => (rel, Some((off.parse().ok()?, val.parse().ok()?)), None),
+        ["file", "fat", rel, k] => (rel, None, Some(k.parse().ok()?)),
+        _ => return None,
+    };
+    let p = repo_dir().join("fixtures").join(rel);
+    let mut data = std::fs::read(&p).ok()?;
+    if data.is_empty() {
+        return None; // emptied in this sandbox
+    }
+    if let Some((off, val)) = patch {
+        data.get_mut(off..off + 4)?.copy_from_slice(&val.to_le_bytes());
+    }
+    let member = match member_index {
+        Some(k) => Some(*fat_members(&data).get(k)?),
+        None => None,
+    };
+    let name = rel.rsplit('/').next().unwrap().to_string();
+    let mut bin = parse_bin(vec![op.to_string()], &name, Arc::from(data), member)?;
+    if with_entries {
+        // function entries from the symbol map
+        let m = manager(&bin);
+        if let Ok(map) = futures::executor::block_on(m.load_symbol_map(&library_info(&bin))) {
+            let mut e: Vec<u32> = map.iter_symbols().map(|(a, _)| a).collect();
+            e.sort();
+            e.dedup();
+            bin.entries = e;
+        }
+    }
+    Some(bin)
+}
+
+/// all fixtures and variants, with their function entries (generator side only)
 fn fixtures() -> &'static Vec<Bin> {
     static F: OnceLock<Vec<Bin>> = OnceLock::new();
     F.get_or_init(|| {
         let mut v = Vec::new();
         for rel in FIXTURES {
-            let p = repo_dir().join("fixtures").join(rel);
-            let Ok(data) = std::fs::read(&p) else { continue };
-            if data.is_empty() {
-                continue; // emptied in this sandbox
+            if let Some(bin) = load_fixture(&format!("file fix {rel}"), true) {
+                v.push(bin);
             }
-            let name = rel.rsplit('/').next().unwrap().to_string();
-            let Some(mut bin) = parse_bin(vec![format!("file fix {rel}")], &name, Arc::from(data)) else { continue };
-            // function entries from the symbol map
-            let m = manager(&bin);
-            if let Ok(map) = futures::executor::block_on(m.load_symbol_map(&library_info(&bin))) {
-                let mut e: Vec<u32> = map.iter_symbols().map(|(a, _)| a).collect();
-                e.sort();
-                e.dedup();
-                bin.entries = e;
+        }
+        for op in VARIANTS {
+            if let Some(bin) = load_fixture(op, true) {
+                v.push(bin);
             }
-            v.push(bin);
         }
         v
     })
 }
 
-fn fixture_by_path(rel: &str) -> Option<&'static Bin> {
-    fixtures().iter().find(|b| b.file_ops[0] == format!("file fix {rel}"))
+/// the binary of one `file fix|fixp|fat` line (executor side: loads only that file, once per process)
+fn fixture_by_op(op: &str) -> Option<Bin> {
+    static C: OnceLock<std::sync::Mutex<HashMap<String, Option<Bin>>>> = OnceLock::new();
+    let c = C.get_or_init(|| std::sync::Mutex::new(HashMap::new()));
+    let key = op.split_whitespace().collect::<Vec<_>>().join(" ");
+    if let Some(b) = c.lock().unwrap().get(&key) {
+        return b.clone();
+    }
+    let b = load_fixture(&key, false);
+    c.lock().unwrap().insert(key, b.clone());
+    b
 }
 
 // ---------------------------------------------------------------------------------------------
@@ -351,14 +462,139 @@ fn build_syn(s: &Syn) -> Option<Bin> {
         segments,
     };
     let f = write_elf(&spec);
-    parse_bin(syn_ops(s), "syn.so", Arc::from(f.bytes))
+    let mut bin = parse_bin(syn_ops(s), "syn.so", Arc::from(f.bytes), None)?;
+    bin.truth.push((text_addr, s.text.clone()));
+    if let Some((gap, d)) = &s.data {
+        bin.truth.push((text_addr + s.text.len() as u64 + gap, d.clone()));
+    }
+    Some(bin)
+}
+
+// ---------------------------------------------------------------------------------------------
+// JITDUMP files described by op lines
+// ---------------------------------------------------------------------------------------------
+
+#[derive(Clone, Debug)]
+enum JitItem {
+    /// JIT_CODE_LOAD with a function name of `namelen` characters and these code bytes
+    Rec { namelen: usize, code: Vec<u8> },
+    /// a record of another type (1 = CODE_MOVE, 2 = CODE_DEBUG_INFO, 4 = CODE_UNWINDING_INFO) with `len` body bytes
+    Skip { kind: u32, len: usize },
+}
+
+#[derive(Clone, Debug, Default)]
+struct JitSpec {
+    machine: u32,
+    items: Vec<JitItem>,
+}
+
+fn jit_ops(j: &JitSpec) -> Vec<String> {
+    let mut v = vec![format!("file jit {}", j.machine)];
+    for it in &j.items {
+        match it {
+            JitItem::Rec { namelen, code } => v.push(format!("rec {namelen} {}", hex(code))),
+            JitItem::Skip { kind, len } => v.push(format!("skip {kind} {len}")),
+        }
+    }
+    v
+}
+
+fn jit_from_ops(ops: &[String]) -> Option<JitSpec> {
+    let mut j = JitSpec::default();
+    let mut seen = false;
+    for l in ops {
+        let w: Vec<&str> = l.split_whitespace().collect();
+        match w.as_slice() {
+            ["file", "jit", m] => {
+                j.machine = m.parse().ok()?;
+                seen = true;
+            }
+            ["rec", n, h] => j.items.push(JitItem::Rec { namelen: n.parse().ok()?, code: unhex(h) }),
+            ["skip", k, n] => j.items.push(JitItem::Skip { kind: k.parse().ok()?, len: n.parse().ok()? }),
+            _ => {}
+        }
+    }
+    seen.then_some(j)
+}
+
+/// writes the dump; returns the bytes and, per code-load record, where its code bytes were put
+fn write_jit(j: &JitSpec) -> (Vec<u8>, Vec<JitRec>) {
+    let mut out = Vec::new();
+    out.extend_from_slice(&0x4A69_5444u32.to_le_bytes());
+    out.extend_from_slice(&1u32.to_le_bytes());
+    out.extend_from_slice(&40u32.to_le_bytes());
+    out.extend_from_slice(&j.machine.to_le_bytes());
+    out.extend_from_slice(&0u32.to_le_bytes());
+    out.extend_from_slice(&4711u32.to_le_bytes());
+    out.extend_from_slice(&(123_456_789u64 + j.machine as u64).to_le_bytes());
+    out.extend_from_slice(&0u64.to_le_bytes());
+    let mut recs = Vec::new();
+    let mut rel = 0u32;
+    let mut index = 0u64;
+    for it in &j.items {
+        match it {
+            JitItem::Rec { namelen, code } => {
+                let total = 16 + 40 + namelen + 1 + code.len();
+                out.extend_from_slice(&0u32.to_le_bytes());
+                out.extend_from_slice(&(total as u32).to_le_bytes());
+                out.extend_from_slice(&(1000 + index).to_le_bytes());
+                out.extend_from_slice(&4711u32.to_le_bytes());
+                out.extend_from_slice(&4711u32.to_le_bytes());
+                out.extend_from_slice(&(0x7000_0000u64 + index * 0x1000).to_le_bytes());
+                out.extend_from_slice(&(0x7000_0000u64 + index * 0x1000).to_le_bytes());
+                out.extend_from_slice(&(code.len() as u64).to_le_bytes());
+                out.extend_from_slice(&index.to_le_bytes());
+                out.extend((0..*namelen).map(|k| b'a' + (k % 26) as u8));
+                out.push(0);
+                recs.push(JitRec { rel, codeoff: out.len() as u64, code: code.clone() });
+                out.extend_from_slice(code);
+                rel += code.len() as u32;
+                index += 1;
+            }
+            JitItem::Skip { kind, len } => {
+                // A JIT_CODE_DEBUG_INFO record is parsed when the following function is looked up: keep it
+                // well-formed (code_addr = 0, nr_entry = 0, zero padding). A garbage body makes
+                // linux-perf-data's `JitCodeDebugInfoRecord::parse` call `Vec::with_capacity(nr_entry)` with the
+                // untrusted count and panic with "capacity overflow" (noted in notes/C20.md; C08 territory).
+                let (len, fill) = if *kind == 2 { ((*len).max(16), 0u8) } else { (*len, 0xccu8) };
+                out.extend_from_slice(&kind.to_le_bytes());
+                out.extend_from_slice(&((16 + len) as u32).to_le_bytes());
+                out.extend_from_slice(&(1000 + index).to_le_bytes());
+                out.extend(std::iter::repeat(fill).take(len));
+            }
+        }
+    }
+    (out, recs)
+}
+
+fn build_jit(j: &JitSpec) -> Option<Bin> {
+    let (bytes, recs) = write_jit(j);
+    let serve: Arc<[u8]> = Arc::from(bytes);
+    let name = "jit-4711.dump".to_string();
+    // identity of the dump as the code computes it (debug id from pid / timestamp / machine)
+    let m = SymbolManager::with_helper(Helper { name: name.clone(), bytes: serve.clone() });
+    let img = futures::executor::block_on(m.load_binary_at_location(Loc(name.clone()), Some(name.clone()), None, None)).ok()?;
+    let debug_id = img.debug_id()?.breakpad().to_string();
+    let code_arch = img.arch().map(|s| s.to_string());
+    drop(img);
+    let arch = match j.machine {
+        62 => Some("x86_64"),
+        3 => Some("x86"),
+        40 => Some("arm"),
+        183 => Some("arm64"),
+        _ => None,
+    };
+    let entries = recs.iter().map(|r| r.rel).collect();
+    Some(Bin { file_ops: jit_ops(j), name, serve: serve.clone(), bytes: serve, member: None, debug_id, arch, code_arch, truth: Vec::new(), jit: Some(recs), base: 0, secs: Vec::new(), segs: Vec::new(), entries })
 }
 
 // ---------------------------------------------------------------------------------------------
 // the decoder oracle: the same yaxpeax decoders as asm/mod.rs, run on a fresh reader per position
 // ---------------------------------------------------------------------------------------------
 
-fn probe<'a, A: Arch>(decoder: &A::Decoder, bytes: &'a [u8], show: &dyn Fn(&A::Instruction) -> String) -> (char, Option<String>)
+/// `show` returns the instruction's text and its own `len()`; the oracle's length is the reader's advance
+/// (what mod.rs:375-380 uses) and must equal `len()`, else the oracle says `?` (the case is then rejected)
+fn probe<'a, A: Arch>(decoder: &A::Decoder, bytes: &'a [u8], show: &dyn Fn(&A::Instruction) -> (String, u64)) -> (char, Option<String>)
 where
     u64: From<A::Address>,
     U8Reader<'a>: Reader<A::Address, A::Word>,
@@ -367,8 +603,9 @@ where
     match decoder.decode(&mut reader) {
         Ok(inst) => {
             let len = u64::from(<U8Reader<'a> as Reader<A::Address, A::Word>>::total_offset(&mut reader));
-            let c = if (1..=15).contains(&len) { std::char::from_digit(len as u32, 16).unwrap() } else { '?' };
-            (c, Some(show(&inst)))
+            let (text, own_len) = show(&inst);
+            let c = if (1..=15).contains(&len) && own_len == len { std::char::from_digit(len as u32, 16).unwrap() } else { '?' };
+            (c, Some(text))
         }
         Err(e) => {
             if e.data_exhausted() {
@@ -382,12 +619,12 @@ where
 
 fn probe_arch(arch: &str, bytes: &[u8]) -> (char, Option<String>) {
     match arch {
-        "x86" => probe::<yaxpeax_x86::protected_mode::Arch>(&yaxpeax_x86::protected_mode::InstDecoder::default(), bytes, &|i| i.to_string()),
+        "x86" => probe::<yaxpeax_x86::protected_mode::Arch>(&yaxpeax_x86::protected_mode::InstDecoder::default(), bytes, &|i| (i.to_string(), i.len().to_const() as u64)),
         "x86_64" => probe::<yaxpeax_x86::amd64::Arch>(&yaxpeax_x86::amd64::InstDecoder::default(), bytes, &|i| {
-            i.display_with(yaxpeax_x86::amd64::DisplayStyle::Intel).to_string()
+            (i.display_with(yaxpeax_x86::amd64::DisplayStyle::Intel).to_string(), i.len().to_const() as u64)
         }),
-        "arm64" => probe::<yaxpeax_arm::armv8::a64::ARMv8>(&yaxpeax_arm::armv8::a64::InstDecoder::default(), bytes, &|i| i.to_string()),
-        "arm" => probe::<yaxpeax_arm::armv7::ARMv7>(&yaxpeax_arm::armv7::InstDecoder::default_thumb(), bytes, &|i| i.to_string()),
+        "arm64" => probe::<yaxpeax_arm::armv8::a64::ARMv8>(&yaxpeax_arm::armv8::a64::InstDecoder::default(), bytes, &|i| (i.to_string(), i.len().to_const() as u64)),
+        "arm" => probe::<yaxpeax_arm::armv7::ARMv7>(&yaxpeax_arm::armv7::InstDecoder::default_thumb(), bytes, &|i| (i.to_string(), i.len().to_const() as u64)),
         _ => ('x', None),
     }
 }
@@ -455,6 +692,12 @@ fn spec_slice(bin: &Bin, start: u32, size: u32, cont: bool, sym: Option<(u32, Op
     };
     let rel = start / align * align;
     let want = (spec_len(start, size, cont, sym) + 15).min(u32::MAX as u64);
+    if let Some(recs) = &bin.jit {
+        // the record whose code contains the address; the bytes from there to the end of that record's code
+        let r = recs.iter().find(|r| r.rel <= rel && ((rel - r.rel) as usize) < r.code.len())?;
+        let off = (rel - r.rel) as u64;
+        return Some((rel, r.codeoff + off, want.min(r.code.len() as u64 - off)));
+    }
     let svma = bin.base.checked_add(rel as u64)?;
     let sec = bin.secs.iter().find(|s| contains(s, svma))?;
     let n = want.min(sec.addr + sec.size - svma);
@@ -468,6 +711,31 @@ fn spec_slice(bin: &Bin, start: u32, size: u32, cont: bool, sym: Option<(u32, Op
     }
 }
 
+/// The bytes of the slice. Where the generator chose the bytes itself (synthetic ELF text/data, JITDUMP code)
+/// they are taken from the generator's description by *address*, not from the file by offset; otherwise they are
+/// read from the file (for a fat member: at the member's start plus the offset inside the member).
+fn window(bin: &Bin, rel: u32, fo: u64, n: u64) -> Option<Vec<u8>> {
+    if let Some(recs) = &bin.jit {
+        let r = recs.iter().find(|r| r.rel <= rel && ((rel - r.rel) as usize) < r.code.len())?;
+        let off = (rel - r.rel) as usize;
+        return r.code.get(off..off + n as usize).map(|b| b.to_vec());
+    }
+    let svma = bin.base + rel as u64;
+    for (addr, bytes) in &bin.truth {
+        if *addr <= svma && svma < addr + bytes.len() as u64 {
+            let off = (svma - addr) as usize;
+            if let Some(b) = bytes.get(off..off + n as usize) {
+                return Some(b.to_vec());
+            }
+        }
+    }
+    let (a, b) = (fo as usize, (fo + n) as usize);
+    match bin.member {
+        Some((m, _)) => bin.serve.get(m as usize + a..m as usize + b).map(|x| x.to_vec()),
+        None => bin.bytes.get(a..b).map(|x| x.to_vec()),
+    }
+}
+
 // ---------------------------------------------------------------------------------------------
 // building a case
 // ---------------------------------------------------------------------------------------------
@@ -477,9 +745,20 @@ fn opt(n: Option<u64>) -> String {
 }
 
 fn build_case(bin: &Bin, note: &str, start: u32, size: u32, cont: bool) -> Vec<String> {
+    build_case_pre(bin, note, &[], start, size, cont)
+}
+
+fn build_case_pre(bin: &Bin, note: &str, pre: &[(u32, u32, bool)], start: u32, size: u32, cont: bool) -> Vec<String> {
     let mut ops = vec![format!("note {note}")];
     ops.extend(bin.file_ops.iter().cloned());
-    ops.push(format!("arch {}", bin.arch.unwrap_or("none")));
+    if let Some((a, n)) = bin.member {
+        ops.push(format!("member {a} {n}"));
+    }
+    ops.push(format!("arch {}", bin.code_arch.as_deref().unwrap_or("none")));
+    ops.push(format!("truearch {}", bin.arch.unwrap_or("none")));
+    for (a, z, c) in pre {
+        ops.push(format!("pre {a} {z} {}", *c as u8));
+    }
     ops.push(format!("req {start} {size} {}", cont as u8));
     let sym = if cont { lookup_symbol(bin, start) } else { None };
     ops.push(match sym {
@@ -493,9 +772,17 @@ fn build_case(bin: &Bin, note: &str, start: u32, size: u32, cont: bool) -> Vec<S
     for s in &bin.segs {
         ops.push(format!("seg {} {} {} {}", s.addr, s.size, s.fileoff, opt(s.datalen)));
     }
-    match spec_slice(bin, start, size, cont, sym) {
-        Some((rel, fo, n)) if (fo + n) as usize <= bin.bytes.len() => {
-            let w = &bin.bytes[fo as usize..(fo + n) as usize];
+    if let Some(recs) = &bin.jit {
+        ops.push("kind jit".into());
+        for r in recs {
+            ops.push(format!("jent {} {} {}", r.rel, r.codeoff, r.code.len()));
+        }
+        ops.push(format!("flen {}", bin.serve.len()));
+    }
+    let sl = spec_slice(bin, start, size, cont, sym).and_then(|(rel, fo, n)| window(bin, rel, fo, n).map(|w| (rel, fo, n, w)));
+    match sl {
+        Some((rel, fo, n, w)) => {
+            let w = &w[..];
             ops.push(format!("slice {rel} {n}"));
             ops.push(format!("win {fo} {}", hex(w)));
             let (o, r) = tables(bin.arch, w);
@@ -599,7 +886,73 @@ fn gen_fixture(rng: &mut Rng, bin: &Bin) -> Vec<String> {
             skind = "capped";
         }
     }
-    build_case(bin, &format!("{kind} {skind}"), start, size, cont)
+    // other requests first, on the same SymbolManager (the server keeps one for its lifetime): a request
+    // must not depend on what was asked before
+    let mut pre = Vec::new();
+    if rng.chance(1, 5) {
+        for _ in 0..rng.range(1, 3) {
+            let a = if !bin.entries.is_empty() && rng.chance(2, 3) { rng.pick(&bin.entries).wrapping_add(rng.below(3) as u32) } else { start.wrapping_add(rng.below(64) as u32).wrapping_sub(32) };
+            pre.push((a, rng.range(0, 48) as u32, rng.chance(1, 2)));
+        }
+    }
+    let note = if pre.is_empty() { format!("{kind} {skind}") } else { format!("{kind}+pre {skind}") };
+    build_case_pre(bin, &note, &pre, start, size, cont)
+}
+
+/// a JITDUMP file with 1-5 code-load records (code from fixtures, random bytes, rejected patterns), other record
+/// types in between, and a request at / inside / at the very end of / just behind a record
+fn gen_jit(rng: &mut Rng) -> Vec<String> {
+    let (machine, arch) = *rng.pick(&[(62u32, "x86_64"), (62, "x86_64"), (3, "x86"), (40, "arm"), (183, "arm64"), (183, "arm64"), (243, "none")]);
+    let parch = if arch == "none" { "x86_64" } else { arch };
+    let mut items = Vec::new();
+    let nrec = rng.range(1, 5);
+    for _ in 0..nrec {
+        if rng.chance(1, 3) {
+            items.push(JitItem::Skip { kind: *rng.pick(&[1u32, 2, 4]), len: rng.range(0, 40) as usize });
+        }
+        let n = *rng.pick(&[1usize, 2, 3, 4, 7, 16, 33, 64, 150]) + rng.below(4) as usize;
+        let mut code = match rng.below(4) {
+            0 => (0..n).map(|_| rng.next_u64() as u8).collect::<Vec<u8>>(),
+            1 => {
+                let mut c = code_snippet(rng, parch, n / 2);
+                if let Some(p) = (!invalid_patterns(parch).is_empty()).then(|| rng.pick(&invalid_patterns(parch)[..]).clone()) {
+                    c.extend_from_slice(&p);
+                }
+                c.extend(code_snippet(rng, parch, n / 2));
+                c
+            }
+            _ => code_snippet(rng, parch, n),
+        };
+        if code.is_empty() {
+            code.push(0x90);
+        }
+        items.push(JitItem::Rec { namelen: rng.range(1, 30) as usize, code });
+    }
+    if rng.chance(1, 3) {
+        items.push(JitItem::Skip { kind: 2, len: rng.range(0, 24) as usize });
+    }
+    let spec = JitSpec { machine, items };
+    let Some(bin) = build_jit(&spec) else { return vec!["note jit-build-failed".into()] };
+    let recs = bin.jit.clone().unwrap_or_default();
+    let r = rng.pick(&recs[..]).clone();
+    let len = r.code.len() as u64;
+    let (start, kind): (u64, &str) = match rng.below(8) {
+        0..=1 => (r.rel as u64, "jit-rec-start"),
+        2..=3 => (r.rel as u64 + rng.below(len), "jit-rec-mid"),
+        4 => (r.rel as u64 + len - 1 - rng.below(len.min(4)), "jit-rec-tail"),
+        5 => (r.rel as u64 + len, "jit-rec-end"),
+        6 => (recs.last().map(|l| l.rel as u64 + l.code.len() as u64).unwrap_or(0) + rng.below(6), "jit-behind"),
+        _ => (r.rel as u64 + rng.below(len + 4), "jit-anywhere"),
+    };
+    let remaining = (r.rel as u64 + len).saturating_sub(start);
+    let (size, skind) = gen_size(rng, remaining);
+    let cont = rng.chance(1, 2);
+    let mut pre = Vec::new();
+    if rng.chance(1, 4) {
+        let q = rng.pick(&recs[..]);
+        pre.push((q.rel + rng.below(q.code.len() as u64) as u32, rng.range(0, 32) as u32, rng.chance(1, 2)));
+    }
+    build_case_pre(&bin, &format!("{kind} {skind}"), &pre, u32c(start), size, cont)
 }
 
 /// byte patterns that the decoders reject (found by probing; deterministic)
@@ -755,8 +1108,11 @@ fn excluded_point(rng: &mut Rng) -> Vec<String> {
 fn bin_for_ops(ops: &[String]) -> Option<Bin> {
     for l in ops {
         let w: Vec<&str> = l.split_whitespace().collect();
-        if let ["file", "fix", rel] = w.as_slice() {
-            return fixture_by_path(rel).cloned();
+        if matches!(w.as_slice(), ["file", "fix" | "fixp" | "fat", ..]) {
+            return fixture_by_op(l);
+        }
+        if matches!(w.as_slice(), ["file", "jit", ..]) {
+            return build_jit(&jit_from_ops(ops)?);
         }
     }
     build_syn(&syn_from_ops(ops)?)
@@ -771,6 +1127,8 @@ fn err_kind(msg: &str) -> &'static str {
         "err:parse"
     } else if msg.contains("Unrecognized architecture") {
         "err:arch"
+    } else if msg.contains("Could not read the requested address range from the file") {
+        "err:io"
     } else if msg.contains("loading the binary") {
         "err:load"
     } else {
@@ -796,7 +1154,7 @@ impl Prop for C20 {
         let mut v = Vec::new();
         // section ends of every fixture: starts end-k, sizes at and around the clamp, both continue flags
         for bin in fixtures() {
-            let label = bin.file_ops[0].rsplit(' ').next().unwrap().replace('/', "_");
+            let label = bin.file_ops[0].trim_start_matches("file fix ").trim_start_matches("file ").replace(['/', ' '], "_");
             for (si, s) in bin.secs.iter().filter(|s| s.exec && s.datalen.unwrap_or(0) > 0).take(2).enumerate() {
                 for k in [0u64, 1, 2, 3, 4, 5, 8, 15, 16, 17] {
                     for size in [0u32, 1, 4, 16, 17, 0xffff_fff0, 0xffff_ffff] {
@@ -827,6 +1185,39 @@ impl Prop for C20 {
                 if let Some(bin) = build_syn(&syn) {
                     for (start, size, cont) in [(0x100u32, 40u32, false), (0x110, 8, false), (0x110, 1, true), (0x100, 0, true), (0x101, 0xffff_ffff, false)] {
                         v.push(Case { name: format!("inv-{arch}-{pi}-{start}-{size}-{}", cont as u8), ops: build_case(&bin, "fixed-invalid fixed", start, size, cont) });
+                    }
+                }
+            }
+        }
+        // JITDUMP: three records (12 bytes + an undecodable pattern, 1-3 bytes, 30 bytes) with other records in
+        // between; every start from 0 to 3 bytes behind the last record x boundary sizes x both continue flags
+        for (machine, arch) in [(3u32, "x86"), (62, "x86_64"), (40, "arm"), (183, "arm64")] {
+            let pats = invalid_patterns(arch);
+            let mut rng = Rng::new(0x1d);
+            let mut a = code_snippet(&mut rng, arch, 12);
+            if let Some(p) = pats.first() {
+                a.extend_from_slice(p);
+            }
+            let b = code_snippet(&mut rng, arch, if arch == "arm64" { 4 } else { 2 });
+            let c = code_snippet(&mut rng, arch, 30);
+            let total = (a.len() + b.len() + c.len()) as u32;
+            let spec = JitSpec {
+                machine,
+                items: vec![
+                    JitItem::Skip { kind: 2, len: 24 },
+                    JitItem::Rec { namelen: 3, code: a },
+                    JitItem::Rec { namelen: 17, code: b },
+                    JitItem::Skip { kind: 1, len: 8 },
+                    JitItem::Rec { namelen: 1, code: c },
+                ],
+            };
+            let sizes: &[u32] = if tier == Tier::Quick { &[0, 1, 5, 40, 0xffff_ffff] } else { &[0, 1, 2, 3, 4, 5, 8, 13, 16, 17, 40, 0xffff_fff0, 0xffff_ffff] };
+            if let Some(bin) = build_jit(&spec) {
+                for start in 0..=total + 3 {
+                    for &size in sizes {
+                        for cont in [false, true] {
+                            v.push(Case { name: format!("jit-{arch}-{start}-{size}-{}", cont as u8), ops: build_case(&bin, "jit-sweep sweep", start, size, cont) });
+                        }
                     }
                 }
             }
@@ -873,7 +1264,9 @@ impl Prop for C20 {
             return excluded_point(rng);
         }
         let fx = fixtures();
-        if fx.is_empty() || rng.chance(2, 5) {
+        if rng.chance(1, 8) {
+            gen_jit(rng)
+        } else if fx.is_empty() || rng.chance(2, 5) {
             gen_syn(rng)
         } else {
             let bin = &fx[rng.below(fx.len() as u64) as usize];
@@ -886,10 +1279,13 @@ impl Prop for C20 {
             return vec!["err:nobinary".into()];
         };
         let mut req: Option<(u32, u32, bool)> = None;
+        let mut pre: Vec<(u32, u32, bool)> = Vec::new();
         for l in ops {
             let w: Vec<&str> = l.split_whitespace().collect();
             match w.as_slice() {
                 ["req", a, s, c] => req = Some((a.parse().unwrap_or(0), s.parse().unwrap_or(0), *c == "1")),
+                ["pre", a, s, c] => pre.push((a.parse().unwrap_or(0), s.parse().unwrap_or(0), *c == "1")),
+                ["arch", a] => stats.bump(&format!("code_arch_{a}")),
                 ["note", k, z] => {
                     stats.bump(&format!("start_{k}"));
                     stats.bump(&format!("size_{z}"));
@@ -903,16 +1299,33 @@ impl Prop for C20 {
         if cont {
             stats.bump("continue_until_function_end");
         }
-        let body = serde_json::json!({
-            "name": bin.name, "debugName": bin.name, "debugId": bin.debug_id,
-            "startAddress": format!("{start:#x}"), "size": format!("{size:#x}"),
-            "continueUntilFunctionEnd": cont,
-        })
-        .to_string();
+        stats.bump(if bin.jit.is_some() {
+            "image_jitdump"
+        } else if bin.member.is_some() {
+            "image_fat_member"
+        } else {
+            "image_object"
+        });
+        let body_of = |start: u32, size: u32, cont: bool| {
+            serde_json::json!({
+                "name": bin.name, "debugName": bin.name, "debugId": bin.debug_id,
+                "startAddress": format!("{start:#x}"), "size": format!("{size:#x}"),
+                "continueUntilFunctionEnd": cont,
+            })
+            .to_string()
+        };
+        let body = body_of(start, size, cont);
+        if !pre.is_empty() {
+            stats.bump("with_preceding_requests");
+        }
         let m = manager(&bin);
         let r = catch_unwind(AssertUnwindSafe(|| {
-            let api = samply_api::Api::new(&m);
-            futures::executor::block_on(api.query_api("/asm/v1", &body))
+            // `Api::query_api` consumes the Api (the server builds one per request); the SymbolManager is the
+            // long-lived object
+            for (a, z, c) in &pre {
+                let _ = futures::executor::block_on(samply_api::Api::new(&m).query_api("/asm/v1", &body_of(*a, *z, *c)));
+            }
+            futures::executor::block_on(samply_api::Api::new(&m).query_api("/asm/v1", &body))
         }));
         let Ok(text) = r else {
             stats.bump("outcome_panic");
